@@ -25,7 +25,8 @@ EMBEDDED_WS = [
 
 def _from_repo_tests(func_name):
     """Literal tuples appended to `test_cases` inside test/test_csv_utils.py::<func_name>."""
-    path = '/repo/test/test_csv_utils.py'
+    from vf.paths import REPO
+    path = REPO + '/test/test_csv_utils.py'
     try:
         with open(path) as f:
             tree = ast.parse(f.read())
